@@ -26,6 +26,7 @@
 //   Renamed rename(const std::string& s, unsigned mask, const Translator& f)
 //   Renamed rename(const std::string& s, unsigned mask, const std::map<std::string,std::string>& m)
 //   Renamed rename(const std::vector<Token>& toks, unsigned mask, const Translator& f | const std::map&)   (tokens of tokenize(s))
+//   Renamed rename_with(toks, mask, f)      same, f any callable  const std::string& -> std::optional<std::string>
 //        SIMULTANEOUS whole-token renaming: every token whose kind is in `mask` and for which f gives a value different
 //        from the token text is replaced by that value; all decisions are taken on the ORIGINAL tokens (a swap
 //        {X1→X2,X2→X1} swaps; a chain {X1→X2,X2→X3} never renames twice). Every other byte is copied unchanged.
